@@ -2,8 +2,8 @@ import os, subprocess, sys
 sys.path.insert(0, os.path.dirname(os.path.dirname(os.path.abspath(__file__))))
 import vlib
 
-# rows of the generated table that are known today not to satisfy the parse-side well-formedness (see known_findings.json)
-EXPECTED_OFFENDING = "write=[] parse=[jingleMessageInitiationElement, callInviteElement] clash=[] toxml=[extendedAddresses]"
+# the generated table must have no offending row (the JMI / Call-Invite / addresses rows were repaired in /repo 968e727, 7d68095)
+EXPECTED_OFFENDING = "write=[] parse=[] clash=[] toxml=[]"
 
 
 def name_offending_rows(chk):
@@ -21,7 +21,7 @@ def name_offending_rows(chk):
     chk.log("generated table, rows violating well-formedness:", out)
     chk.cov["table_report"] = out
     if not out.startswith(EXPECTED_OFFENDING):
-        detail = "generated SceTable: %s\nexpected (today's known defects only): %s" % (out, EXPECTED_OFFENDING)
+        detail = "generated SceTable: %s\nexpected: %s" % (out, EXPECTED_OFFENDING)
         for b in chk.broken:
             if b["what"].startswith("lake build failed"):
                 b["detail"] = detail + "\n" + str(b["detail"])
@@ -75,9 +75,8 @@ SPEC = dict(
     level_text="Theorems for EVERY table satisfying decidable well-formedness predicates and EVERY message: public part has no "
                "payload-class element; unsplit = public (+) sensitive as multisets up to explicit-fallback copies, each other element in "
                "exactly one part; the receive path recovers every field and leaves nothing unknown. The predicates are decided in "
-               "the kernel on the table regenerated from the C++ at every run: write side and distinguishability hold today; the "
-               "parse side fails on exactly two rows (JMI, Call-Invite: defect theorems + reproduction on the real code), recovery "
-               "is proved for all other rows.",
+               "the kernel on the table regenerated from the C++ at every run: the whole table is well-formed (table_wf), so all three "
+               "hold of today's code for all messages (today_*); toXml(SceSensitive) equals the envelope content.",
     level_note="Proved about the guard table, not about the C++ text: the table is extracted by a regex translator and tied to the "
                "library by differential inventories (exhaustive over singles and pairs, sampled beyond). Value-level secrecy and "
                "recovery are exploration (oracle), not proof.",
